@@ -2,7 +2,10 @@
 
 package protojson
 
-import "google.golang.org/protobuf/reflect/protoreflect"
+import (
+	"google.golang.org/protobuf/internal/strs"
+	"google.golang.org/protobuf/reflect/protoreflect"
+)
 
 // Contracts for the well-known-type text parsers (property C23).
 //
@@ -165,3 +168,20 @@ func contract_decoder_unmarshalMessage(d decoder, m protoreflect.Message, skipTy
 	modifiesAll()
 	return
 }
+
+// ---------------------------------------------------------------- FieldMask in JSON (C23)
+
+// marshalFieldMask: a path is emitted only as the camel-case form of itself and only if that
+// conversion is reversible (snake(camel(s)) == s) - round trip or rejection, for every path,
+// whether or not it contains an underscore.
+//
+// @ props C23
+// @ mode int
+// @ nopanic
+// @ site paths = append(paths, cc): identical(cc, strs.SpecJSONCamelCase(s)) && s == strs.SpecJSONSnakeCase(cc)
+func contract_encoder_marshalFieldMask(e encoder, m protoreflect.Message) (err error) {
+	modifiesAll()
+	return
+}
+
+var _ = strs.SpecJSONCamelCase
